@@ -253,16 +253,19 @@ TRIAL_RULE = ("a case = one trial: a fresh primitive and a seeded population of 
 
 
 def c03(tier, seed):
-    return dict(runs=fb_plan(tier, seed, "h_sync", "mutex", MUTEX_STALLS, 24, 150, tsan=True),
+    return dict(runs=fb_plan(tier, seed, "h_sync", "mutex", MUTEX_STALLS, 24, 150, tsan=True, extra=dict(livelock_prop="C03")),
                 rule=TRIAL_RULE + "Oracles: occupancy counter (atomic) must be 0 on entry, plain payload pair pa==pb and section count (TSan judges payload "
                 "races), trylock never context-switches, mutex counter back to 1, stranded locker at logical quiescence. distinct_nontrivial = distinct "
-                "acquisition-order hashes among trials with at least one contended hand-off.",
-                min_events={"mutex_contended_acquisitions": 50, "lib_wake_mpsc_spin_count": 1, "mutex_trylock_fail": 1, "saving_skips": 1},
+                "acquisition-order hashes among trials with at least one contended hand-off. Trial shapes rotate: mixed lock/trylock sections; the same with owners "
+                "that give the mutex up inside fiber_cond_wait (deferred unlock); tight lock/trylock hammer; hand-off pairs (300..800 rounds of owner -> sole "
+                "announced waiter through the deferred unlock).",
+                min_events={"mutex_contended_acquisitions": 50, "lib_wake_mpsc_spin_count": 1, "mutex_trylock_fail": 1, "saving_skips": 1,
+                            "mutex_released_by_deferred_unlock": 500, "mutex_handoff_trials": 4},
                 assumptions=ASSUME_COMMON)
 
 
 def c05(tier, seed):
-    return dict(runs=fb_plan(tier, seed, "h_sync", "cond", COND_STALLS, 30, 200, tsan=True, tsan_judged=False),
+    return dict(runs=fb_plan(tier, seed, "h_sync", "cond", COND_STALLS, 30, 200, tsan=True, tsan_judged=False, extra=dict(livelock_prop="C05")),
                 rule=TRIAL_RULE + "Credit ledger under the user mutex: signal while a waiter is registered gives one credit, broadcast one per registered "
                 "waiter; every return from fiber_cond_wait must own the mutex and consume a credit; at the end credits==0 and nobody is blocked "
                 "(quiescence => lost signal). No predicate loops. distinct_nontrivial = distinct (waiters, signallers, waits, mode, window-hit) tuples.",
@@ -271,7 +274,7 @@ def c05(tier, seed):
 
 
 def c06(tier, seed):
-    runs06 = fb_plan(tier, seed, "h_sync", "sem", ["MAINT_PUBLISH", "MPMC_PUSH_MID", "WAIT_MPMC", "SWITCH_PRE", "SWITCH_POST", "SCHEDULED", "SEM_POST_MID"], 48, 200, tsan=True, tsan_judged=False)
+    runs06 = fb_plan(tier, seed, "h_sync", "sem", ["MAINT_PUBLISH", "MPMC_PUSH_MID", "WAIT_MPMC", "SWITCH_PRE", "SWITCH_POST", "SCHEDULED", "SEM_POST_MID"], 48, 200, tsan=True, tsan_judged=False, extra=dict(livelock_prop="C06"))
     for r in runs06:
         if r.variant == "tsan":
             r.args["mutexlike"] = 1
@@ -283,7 +286,7 @@ def c06(tier, seed):
 
 
 def c07(tier, seed):
-    return dict(runs=fb_plan(tier, seed, "h_sync", "rwlock", RW_STALLS, 45, 200, tsan=True, tsan_judged=False),
+    return dict(runs=fb_plan(tier, seed, "h_sync", "rwlock", RW_STALLS, 45, 200, tsan=True, tsan_judged=False, extra=dict(livelock_prop="C07")),
                 rule=TRIAL_RULE + "Oracles: writer alone (atomic occupancy of readers/writers on entry and exit), shared data unchanged during a read "
                 "section, try variants never context-switch, state word 0 at the end, stranded waiter at quiescence.",
                 min_events={"rw_read_sections_shared_with_other_readers": 10, "rw_write_sections": 50, "rw_trywr_fail": 1, "lib_wake_mpsc_spin_count": 1},
@@ -411,6 +414,18 @@ def c09(tier, seed):
             k += 1
             runs.append(fb("h_sleep", "asan", "sleep", seed, k, thr, mode="stall", stall_point=sp, stall_every=3, stall_us_lo=50, stall_us_hi=1500,
                            trials=5 if q else 20, scenario=1, livelock_prop="C09"))
+    # stalls longer than two timer ticks (5 ms each) between a sleeper's registration and the completion of its switch: the timer side
+    # gets the chance to wake a sleeper whose suspension is still in progress
+    for sp in ("SLEEP_REGISTERED", "SWITCH_PRE"):
+        for thr in ((2, 4) if q else (2, 4, 8, 16)):
+            k += 1
+            runs.append(fb("h_sleep", "mon", "sleep", seed, k, thr, mode="stall", stall_point=sp, stall_every=5, stall_us_lo=4000, stall_us_hi=16000,
+                           trials=4 if q else 20, livelock_prop="C09"))
+    # every poller delayed (8..30 ms) right after it has consumed ticks from the timer, while many fibers register one- and two-tick sleeps
+    for thr in ((2, 3, 4) if q else (2, 3, 4, 8, 16)):
+        k += 1
+        runs.append(fb("h_sleep", "mon", "sleep", seed, k, thr, mode="stall", stall_point="TIMER_READ", stall_every=1, stall_us_lo=8000, stall_us_hi=30000,
+                       trials=12 if q else 40, scenario=5, livelock_prop="C09"))
     for thr in ((2, 8) if q else (1, 4, 16)):
         k += 1
         runs.append(fb("h_sleep", "asan", "sleep", seed, k, thr, mode="jitter", trials=6 if q else 30, livelock_prop="C09"))
@@ -423,11 +438,12 @@ def c09(tier, seed):
                 rule="a case = one trial of one scenario: (0) 1..200 sleepers with durations {0,1us,999us,1ms,4.9ms,5ms,7ms,12ms,20ms} through "
                 "fiber_sleep/usleep/nanosleep next to a ticker, (1) a same-deadline cohort whose members exit right after waking (their stacks, "
                 "which hold the sleeper nodes, are reclaimed), (2) every kernel thread CPU-bound for 60-300 ms before usleep(20ms) (stale tick), "
-                "(3) every thread always busy with yielding fibers, (4) long sleeps. Oracles: monotonic elapsed >= requested (sound under load), "
+                "(3) every thread always busy with yielding fibers, (4) long sleeps, (5) 20..170 fibers repeating 0.2..4.9 ms sleeps (registrations at every "
+                "phase of the tick, with pollers delayed after consuming ticks). Oracles: monotonic elapsed >= requested (sound under load), "
                 "one registration and one sleep wake-up per call (ghost), ticker progress on the same thread, ghost/ASan for the sleeper nodes, "
                 "quiescence/livelock for sleepers never resumed.",
                 min_events={"sleep_calls": 500, "sleep_same_tick_cohort_fibers": 10, "sleep_after_cpu_bound_phase": 1,
-                            "sleep_with_every_thread_busy_yielding": 1, "sleep_then_exit_immediately": 10},
+                            "sleep_with_every_thread_busy_yielding": 1, "sleep_then_exit_immediately": 10, "sleep_short_repeated": 2000, "TIMER_READ": 100},
                 assumptions=ASSUME_COMMON + ["CLOCK_MONOTONIC brackets each call, so load can only enlarge the measured span"])
 
 
